@@ -65,14 +65,14 @@ CHECKS = {
         technique="Translation validation against a Coq-defined semantics + Coq proofs of the semantics' meta-theory (type safety by a step functional)"),
     "C02": dict(
         category="proof",
-        text=("Coq theorems, for ALL layout numbers satisfying the layout invariants: the byte footprint of every modelled store-emitting "
+        text=("Coq theorems, for ALL layout numbers satisfying the layout invariants and, through Common/Layout.v, for all well-formed TYPES with stride <= 4096 (C02_typed_*): the byte footprint of every modelled store-emitting "
               "operation (write_all, cast_into_memory arms, tagged-union payload casts, nil values, memset loops swept to 4096 and lifted by "
-              "forallb, ABI cast words) lies inside its destination outside exactly characterised classes; the full statement is refuted "
-              "(stride-sized aggregate copies into packed fields and sum types) and stays refuted after the committed tag-width fix, which "
-              "is proved to repair the variant->enum tag store. Guard-byte programs on the real capy: changed guards must equal the model's "
+              "forallb, ABI cast words) lies inside its destination outside exactly characterised classes; field-wise literal stores are proved in place and pairwise disjoint (C02_literal_*). For the pinned code the full statement was "
+              "refuted (pointer-width tag store; stride-sized aggregate copies); both were repaired in /repo (38e2441, 7d3c1b1) and the "
+              "repaired variants are proved (C02_fixed_tag_variant_to_enum, C02_sizecopy_except_known). Guard-byte programs on the real capy: changed guards must equal the model's "
               "prediction (correspondence) and, outside known classes, none may change (oracle)."),
         design_ref="DESIGN.md section 6 C02, section 10.13",
-        note=TB + "Layout numbers are parameters constrained by invariants (not derived from Common/Layout.v); field-wise literal stores are exercised end to end only; stack-slot adjacency is Cranelift's and not modelled. Axioms: none.",
+        note=TB + "A literal that reads its own destination (C02-4) stays an open finding; stack-slot adjacency is Cranelift's and not modelled. Axioms: none.",
         technique="Coq proof (footprint arithmetic with refuted/except-known classes) + end-to-end guard-byte correspondence"),
     "C04": dict(
         category="proof",
@@ -101,8 +101,10 @@ CHECKS = {
               "classify_arg equal the System V AMD64 classification written independently (MEMORY exactly when SysV says so, else the same "
               "class array; no panic site, no fuel exhaustion); field layout equals C's; split_aggregate's cast words sit at 0 and 8, carry the "
               "eightbyte's class and over-cover by an exactly stated amount (exact coverage refuted, witness {[3]u8}). The whole-signature "
-              "rule (6 INTEGER / 8 SSE registers, whole-argument spill, sret) is NOT proved: the executable checker abi_ok is evaluated on the "
-              "real fn_ty_to_abi (cfg hook) for ~10k signatures per run; both call directions are run against gcc -O0/-O2."),
+              "rule (6 INTEGER / 8 SSE registers, whole-argument spill, MEMORY arguments on the stack, sret through a hidden pointer) is proved "
+              "for any number of parameters (C19_passmode_agrees, induction over the parameter list with the register counters as invariant); "
+              "read extents of the caller are characterised (over-read refuted, witness {[3]u8}). The extracted abi_ok also runs on the real "
+              "fn_ty_to_abi (cfg hook) for ~10k signatures per run; both call directions are run against gcc -O0/-O2."),
         design_ref="DESIGN.md section 6 C19, section 10.13",
         note=TB + "Cranelift's sequential register assignment and gcc are trusted and exercised end to end; x86-64 System V only. Axioms: none.",
         technique="Coq proof (classification agreement by induction over fields) + verified checker on the real ABI lowering + end-to-end against gcc"),
